@@ -197,6 +197,14 @@ def gStep (sys : GSys) : GOp → Option GSys
   | .copy h => do let g ← sys[h]?; pure (sys ++ [gCopy g])
   | .fromDict h edges live => do let _ ← sys[h]?; pure (sys.set h (gFromDict edges live))
 
+/-- the side conditions of the call sites that success of the primitives does not imply
+(`Proofs/GraphStep.lean`: `gLegalB op = true ↔ GLegal op`) -/
+def gLegalB : GOp → Bool
+  | .create _ new kids => kids.all (· != new)
+  | .rmSub _ r => r != 0
+  | .fromDict _ edges live => isForestB { nodes := live, edges := edges }
+  | _ => true
+
 def gRun (sys : GSys) (ops : List GOp) : Option GSys := ops.foldlM gStep sys
 
 end PhyModel.Graph
